@@ -93,6 +93,7 @@ type c07Shift struct {
 type c07Node struct {
 	LA, CA, EA int // line, col, endcol in A
 	LB, CB     int
+	KA, KB     int // column of the first content character (after an opening quote) in A and B
 }
 
 func checkShift(c *c07Shift) (key, msg string, attributed int) {
@@ -129,7 +130,27 @@ func checkShift(c *c07Shift) (key, msg string, attributed int) {
 		}
 		attributed++
 		n := c.Nodes[best]
-		want := fmt.Sprintf("%d:%d|%s|%s", n.LB, n.CB+(d.Col-n.CA), d.Kind, rePosInMsg.ReplaceAllString(d.Msg, "P"))
+		// a report on the first character of a scalar is either about the value as a whole (it stays
+		// at the scalar's start, i.e. at the quote) or about its first content character; inside the
+		// content the offset from the content start is kept
+		var cands []int
+		switch {
+		case n.KA == 0: // no quoting information (old replay files)
+			cands = []int{n.CB + (d.Col - n.CA)}
+		case d.Col == n.CA && n.KA == n.CA:
+			cands = []int{n.CB, n.KB}
+		case d.Col == n.CA:
+			cands = []int{n.CB}
+		default:
+			cands = []int{n.KB + (d.Col - n.KA)}
+		}
+		want := ""
+		for _, cc := range cands {
+			w := fmt.Sprintf("%d:%d|%s|%s", n.LB, cc, d.Kind, rePosInMsg.ReplaceAllString(d.Msg, "P"))
+			if want == "" || have[w] > 0 {
+				want = w
+			}
+		}
 		if have[want] == 0 {
 			return "C07/report-does-not-move-with-its-token", fmt.Sprintf("diagnostic %s sits on the token at %d:%d (layout A); the same token is at %d:%d in layout B but no identical diagnostic at %d:%d there.\nB diagnostics: %v\n--- A\n%s\n--- B\n%s", d, n.LA, n.CA, n.LB, n.CB, n.LB, n.CB+(d.Col-n.CA), diagStrings(db), c.YA, c.YB), attributed
 		}
@@ -218,6 +239,8 @@ var c07Exprs = []struct{ what, text, msg string }{
 	{"undefined-function", "${{ @zzzfunc(github.sha) }}", "undefined function \"zzzfunc\""},
 	{"undefined-function", "${{ format('{0}', @zzzfunc()) }}", "undefined function \"zzzfunc\""},
 	{"wrong-argument-count", "${{ github.sha && @startsWith('a') }}", "number of arguments is wrong"},
+	{"object-evaluated-in-template", "@${{ fromJSON('{}') }}", "object, array, and null values should not be evaluated in template"},
+	{"object-evaluated-in-template", "${{ 'x' }} and @${{ fromJSON('[1]') }}", "object, array, and null values should not be evaluated in template"},
 }
 
 func plant(text string) (string, int) {
@@ -233,6 +256,9 @@ func TestC07(t *testing.T) {
 		r.Check(t, "exact-expression", hx.N(2500, 60000), func(rt *rapid.T) {
 			g := &wf.G{T: rt, Rare: rapid.Bool().Draw(rt, "rare")}
 			w := g.Workflow()
+			if rapid.Bool().Draw(rt, "shufflekeys") {
+				g.ShuffleKeys(w.Root)
+			}
 			var cand []*ye.Node
 			for _, lf := range scalarLeaves(w.Root) {
 				l := wf.LeafOf(lf)
@@ -253,7 +279,7 @@ func TestC07(t *testing.T) {
 				pre += rapid.SampledFrom([]string{"a", "text ", "x-", ""}).Draw(rt, "pretext") + rapid.SampledFrom([]string{"${{ 'ok' }}", "${{ 1 }}", "${{ true }} "}).Draw(rt, "prepl")
 			}
 			pre += rapid.SampledFrom([]string{"", "v", "some text ", "::"}).Draw(rt, "pretext2")
-			if strings.HasSuffix(info.Path, ".if") && rapid.Bool().Draw(rt, "bareif") {
+			if strings.HasSuffix(info.Path, ".if") && strings.HasPrefix(text, "${{ ") && strings.Count(text, "${{") == 1 && e.what != "object-evaluated-in-template" && rapid.Bool().Draw(rt, "bareif") {
 				// if: condition without ${{ }}
 				pre = ""
 				text = strings.TrimSuffix(strings.TrimPrefix(text, "${{ "), " }}")
@@ -265,8 +291,11 @@ func TestC07(t *testing.T) {
 			}
 			val := pre + text
 			style := rapid.SampledFrom([]ye.Style{ye.Auto, ye.Single, ye.Double}).Draw(rt, "style")
-			if strings.Contains(val, "'") && style == ye.Single {
-				style = ye.Double
+			if strings.Contains(val, "'") {
+				style = ye.Double // a single-quoted (or auto-quoted) scalar would need '' escapes
+			}
+			if e.what == "object-evaluated-in-template" && strings.Contains(info.Path, ".strategy.matrix") {
+				return // objects and arrays are legitimate matrix values
 			}
 			lf.Val, lf.Raw, lf.Style = val, "", style
 			lay := g.Layout()
@@ -296,6 +325,9 @@ func TestC07(t *testing.T) {
 		r.Check(t, "exact-keys-values", hx.N(1500, 40000), func(rt *rapid.T) {
 			g := &wf.G{T: rt, Rare: true}
 			w := g.Workflow()
+			if rapid.Bool().Draw(rt, "shufflekeys") {
+				g.ShuffleKeys(w.Root)
+			}
 			g.Styles(w.Root)
 			lay := g.Layout()
 			kind := rapid.SampledFrom([]string{"unknown-key", "shell", "permission-value", "permission-scope", "event", "cron", "glob", "needs", "runner-label", "input-type"}).Draw(rt, "kind")
@@ -422,6 +454,9 @@ func TestC07(t *testing.T) {
 		r.Check(t, "shift-two-layouts", hx.N(1500, 40000), func(rt *rapid.T) {
 			g := &wf.G{T: rt, Rare: rapid.Bool().Draw(rt, "rare")}
 			w := g.Workflow()
+			if rapid.Bool().Draw(rt, "shufflekeys") {
+				g.ShuffleKeys(w.Root)
+			}
 			g.Styles(w.Root)
 			leaves := scalarLeaves(w.Root)
 			ne := rapid.IntRange(1, 4).Draw(rt, "nerr")
@@ -446,18 +481,32 @@ func TestC07(t *testing.T) {
 			layA, layB := g.Layout(), g.Layout()
 			c := &c07Shift{}
 			c.YA = ye.Emit(w.Root, layA)
-			type pos struct{ l, c, e int }
+			type pos struct{ l, c, e, k int }
 			pa := map[*ye.Node]pos{}
 			w.Root.Walk(func(n, p *ye.Node, idx int, isKey bool) {
 				if n.Kind == ye.Scalar {
-					pa[n] = pos{n.Line, n.Col, n.EndCol}
+					pa[n] = pos{n.Line, n.Col, n.EndCol, n.ContentCol}
+				}
+			})
+			// layout B may also quote scalars differently (only values free of quotes and backslashes)
+			w.Root.Walk(func(n, p *ye.Node, idx int, isKey bool) {
+				if n.Kind == ye.Scalar && !isKey && n.Raw == "" && n.Tag == "" && wf.LeafOf(n) != nil && !strings.ContainsAny(n.Val, "'\"\\") && n.Val != "" {
+					if l := wf.LeafOf(n); l.Typed != "" && !strings.HasPrefix(n.Val, "${{") {
+						return
+					}
+					if n.Val == "true" || n.Val == "false" || n.Val == "null" || n.Val == "yes" || (n.Val[0] >= '0' && n.Val[0] <= '9') {
+						return
+					}
+					if rapid.IntRange(0, 2).Draw(rt, "restyle") == 0 {
+						n.Style = rapid.SampledFrom([]ye.Style{ye.Auto, ye.Single, ye.Double}).Draw(rt, "newstyle")
+					}
 				}
 			})
 			c.YB = ye.Emit(w.Root, layB)
 			w.Root.Walk(func(n, p *ye.Node, idx int, isKey bool) {
 				if n.Kind == ye.Scalar {
 					a := pa[n]
-					c.Nodes = append(c.Nodes, c07Node{a.l, a.c, a.e, n.Line, n.Col})
+					c.Nodes = append(c.Nodes, c07Node{a.l, a.c, a.e, n.Line, n.Col, a.k, n.ContentCol})
 				}
 			})
 			k, m, attributed := checkShift(c)
@@ -498,6 +547,9 @@ func TestC07(t *testing.T) {
 		r.Check(t, "bounds-escaped-newlines", hx.N(600, 10000), func(rt *rapid.T) {
 			g := &wf.G{T: rt}
 			w := g.Workflow()
+			if rapid.Bool().Draw(rt, "shufflekeys") {
+				g.ShuffleKeys(w.Root)
+			}
 			var cand []*ye.Node
 			for _, lf := range scalarLeaves(w.Root) {
 				l := wf.LeafOf(lf)
